@@ -142,8 +142,10 @@ package layer2
 //@   assert before Gratuitous#2: [covered6] Covers(adv, client.intf)
 //@   assert before Gratuitous#2: [v6] !net.is4(adv.ip) && sameSlice(arg1, adv.ip)
 //@   loop 1 binds client
+//@   loop 1 complete [everyArpInterface]
 //@   loop 1 invariant lockstate(a.RWMutex) == 1 && a.ipRefcnt[net.ipstr(adv.ip)] > 0 && net.is4(adv.ip)
 //@   loop 2 binds client#2
+//@   loop 2 complete [everyNdpInterface]
 //@   loop 2 invariant lockstate(a.RWMutex) == 1 && a.ipRefcnt[net.ipstr(adv.ip)] > 0 && !net.is4(adv.ip)
 //@ func (*arpResponder).Gratuitous
 //@   trusted
